@@ -49,7 +49,8 @@ TEXTS = {
                  "serde_json::Value level (Model/Codec.v: every serde attribute of analysis.rs:18-290 and of "
                  "Position/PositionRange transcribed, decoders covering map and sequence forms, internally tagged / "
                  "untagged / flattened types and serde's buffered-content corner cases): decoding an encoding gives "
-                 "back the value for ALL values (C13_roundtrip, C13_roundtrip_exact), the encoding is injective, "
+                 "back the value for ALL values (C13_roundtrip, C13_roundtrip_exact), also from any reordering of "
+                 "object keys (C13_roundtrip_unordered: the decoder is insensitive to key order), the encoding is injective, "
                  "encodings have distinct object keys; and over module_graph_1_to_2: a dependency whose last leading "
                  "comment matches find_deno_types decodes with exactly that types specifier and all other fields "
                  "unchanged, leadingComments removed, entries without comments untouched, for every find_deno_types "
